@@ -386,6 +386,111 @@ def r19_underscore_assign(f):
         f.apply(edits, "R19")
 
 
+def r15_block_on(f):
+    """R15: the synchronous cli handlers are verified as async fns: `rt.block_on(E)` -> `E.await`;
+    `rt.block_on(async { S; E })?` -> `{ S; (E)? }` (the outer `?` makes every inner `?` a return from the handler);
+    `let rt = Runtime::new()?;` is dropped; `fn` becomes `async fn`"""
+    while True:
+        c = f.code
+        hit = None
+        for i, t in enumerate(c):
+            if t.kind == "ident" and t.text == "block_on" and c[i - 1].text == "." and c[i + 1].text == "(":
+                hit = i
+                break
+        if hit is None:
+            break
+        i = hit
+        o, cl = i + 1, f.br[i + 1]
+        recv_a = i - 2
+        if c[recv_a].kind != "ident":
+            raise RuleError("R15: block_on receiver is not a simple name")
+        if c[o + 1].text == "async":
+            k = o + 2
+            if c[k].text == "move":
+                k += 1
+            if c[k].text != "{" or f.br[k] != cl - 1:
+                raise RuleError("R15: block_on(async ..) is not a single block")
+            if not (cl + 1 < len(c) and c[cl + 1].text == "?"):
+                raise RuleError("R15: block_on(async { .. }) must be followed by `?`")
+            bo, bc = k, cl - 1
+            # trailing expression: after the last `;` at depth 0 inside the block
+            last = bo
+            depth = 0
+            for q in range(bo + 1, bc):
+                if c[q].text in ("(", "[", "{"):
+                    depth += 1
+                elif c[q].text in (")", "]", "}"):
+                    depth -= 1
+                elif c[q].text == ";" and depth == 0:
+                    last = q
+            if last + 1 >= bc:
+                raise RuleError("R15: async block without a trailing expression")
+            stmts = f.tok_text(bo + 1, last) if last > bo else ""
+            tail = f.tok_text(last + 1, bc - 1)
+            f.apply([(c[recv_a].pos, c[cl + 1].end, "{ %s (%s)? }" % (stmts, tail))], "R15")
+        else:
+            inner = f.tok_text(o + 1, cl - 1)
+            f.apply([(c[recv_a].pos, c[cl].end, "%s.await" % inner)], "R15")
+    c = f.code
+    edits = []
+    for i, t in enumerate(c):
+        if t.text == "let" and c[i + 1].text == "rt" and c[i + 2].text == "=" and c[i + 3].text == "Runtime":
+            j = i
+            while c[j].text != ";":
+                j += 1
+            edits.append((t.pos, c[j].end, ""))
+    k = 0
+    while c[k].text != "fn":
+        k += 1
+    if not (k > 0 and c[k - 1].text == "async"):
+        edits.append((c[k].pos, c[k].pos, "async "))
+    f.apply(edits, "R15")
+
+
+def r21_guard_drop(f, guard_calls):
+    """R21 (drop elaboration for lock guards): a value produced by one of `guard_calls` that is not bound to a named variable
+    (`let _ = ..;`, or an expression statement) is dropped at the end of its statement: `lock_dropped(Tracked(w));` is inserted
+    right after it.  A named binding (`let _guard = ..;`) lives to the end of its block (Rust's drop order)"""
+    c = f.code
+    edits = []
+    for i, t in enumerate(c):
+        if t.kind == "ident" and t.text in guard_calls and c[i - 1].text == "." and c[i + 1].text == "(":
+            # statement start
+            s = i
+            depth = 0
+            while s > 0:
+                x = c[s - 1].text
+                if x in (")", "]", "}"):
+                    if depth == 0 and x == "}":
+                        break
+                    depth += 1
+                elif x in ("(", "[", "{"):
+                    if depth == 0:
+                        break
+                    depth -= 1
+                elif x == ";" and depth == 0:
+                    break
+                s -= 1
+            # statement end
+            e = i
+            depth = 0
+            while not (c[e].text == ";" and depth == 0):
+                if c[e].text in ("(", "[", "{"):
+                    depth += 1
+                elif c[e].text in (")", "]", "}"):
+                    depth -= 1
+                    if depth < 0:
+                        break
+                e += 1
+            named = c[s].text == "let" and c[s + 1].kind == "ident" and c[s + 1].text not in ("_",) and c[s + 2].text in ("=", ":")
+            if c[s].text == "let" and c[s + 1].text == "mut":
+                named = True
+            if not named and c[e].text == ";":
+                edits.append((c[e].end, c[e].end, " lock_dropped(Tracked(w));"))
+    if edits:
+        f.apply(edits, "R21")
+
+
 REROOT = [("std::str::from_utf8", "strs::from_utf8"), ("std::fs::", "fs::"), ("std::mem::", "mem::"), ("std::thread::", "thread::"), ("std::path::", "path::"), ("std::env::", "env::"), ("std::process::", "process::")]
 
 
@@ -584,11 +689,12 @@ RULES = {
     "R17": r17_reroot,
     "R11": r11_select_try_join,
     "R19": r19_underscore_assign,
+    "R15": r15_block_on,
 }
-ORDER = ["R1", "R19", "R16", "R17", "R11", "R7", "R5", "R6", "R3", "R4", "R13"]
+ORDER = ["R1", "R19", "R15", "R16", "R17", "R11", "R7", "R5", "R6", "R3", "R4", "R13"]
 
 
-def rewrite(text, origin, rules, substs=None, world_calls=None):
+def rewrite(text, origin, rules, substs=None, world_calls=None, guard_calls=None):
     f = Frag(text, origin)
     done = set()
     if substs:
@@ -601,6 +707,8 @@ def rewrite(text, origin, rules, substs=None, world_calls=None):
             done.add(RULES[r])
     if world_calls is not None:
         r10_world(f, world_calls)
+    if guard_calls:
+        r21_guard_drop(f, guard_calls)
     if substs:
         post = [s for s in substs if s.get("when") != "pre"]
         if post:
